@@ -109,6 +109,28 @@ def seed_coverage(ctx, F):
                 'the counter is too low and a put beyond the limit is accepted' % ', Frame.'.join(sorted(extra)), sink='Memvid.cached_payload_end', detail='usage-seed-filtered:' + ','.join(sorted(extra)))
     else:
         ctx.ok('COVER-C24e', g, 'seed = max over all frames of payload_offset + payload_length (no other Frame field read)')
+    # the scan visits every frame: a loop over the frames is left only when its iterator is exhausted (payload-reusing updates
+    # and vacuum make the layout non-monotone in frame order, so "the newest frame that owns bytes" is not the end of the region)
+    from . import monotone
+    loops = monotone.natural_loops(g)
+    for nx in [c for c in g.calls() if c.name == 'next']:
+        body = min([b for h, b in loops.items() if nx.bb in b] or [set()], key=len)
+        if not body:
+            continue
+        allowed = set()
+        for vs in lib.variant_switches(g):
+            if vs.get('enum') == 'Option' and vs['bb'] in body and 'None' in vs['arms']:
+                if [x for x in lib.defs(g).get(vs['place'].l, []) if x['kind'] == 'call' and x['call'] is nx]:
+                    allowed.add((vs['bb'], vs['arms']['None']))
+        exits = [(b, x) for b in body for x in g.succs(b) if x not in body and (b, x) not in allowed
+                 and g.blocks[x]['t']['k'] not in ('unreachable', 'resume') and not g.blocks[x].get('cleanup')]
+        ctx.evaluations += len(body)
+        if exits:
+            ctx.bad('COVER-C24e', g, 'the frame scan of the open-time seed can stop before the last frame (edge bb%d -> bb%d): payload offsets are not monotone in frame order '
+                    '(payload-reusing updates, vacuum), so the seed can lie below live payload bytes' % exits[0], line=g.blocks[exits[0][0]]['t'].get('l'),
+                    sink='Memvid.cached_payload_end', detail='usage-seed-early-exit')
+        else:
+            ctx.ok('COVER-C24e', g, 'the frame scan leaves its loop only on iterator exhaustion', line=nx.line)
 
 
 def run(ctx):
